@@ -143,6 +143,122 @@ func c14Setter(k *core.Case) {
 	}
 }
 
+// c14History: a sequence of SetAttr calls on ONE EapAkaPrime object (fresh, or obtained by decoding a
+// reference-encoded packet in arbitrary attribute order). The final content must be the last value set per
+// type (plus, for a decoded object, the received attributes not overwritten); framing must be clean
+// (zero padding!), Marshal deterministic, and the packet must decode to the same content.
+func c14History(k *core.Case, decoded bool) {
+	k.Eval(1)
+	final := map[uint8]abs.HB{}
+	var steps []string
+	var le *eap.EAP
+	var ap *eap.EapAkaPrime
+	subtype := uint8(k.R.Pick(1, 2, 4, 5, 12, 13, 14))
+	code, id := uint8(k.R.Pick(1, 2)), k.R.Byte()
+	if decoded {
+		a := gen.AKAWith(k.R, subtype, k.R.Intn(128))
+		for x := len(a.Attrs) - 1; x > 0; x-- {
+			y := k.R.Intn(x + 1)
+			a.Attrs[x], a.Attrs[y] = a.Attrs[y], a.Attrs[x]
+		}
+		wire, err := ref.EncodeEAP(&abs.EAP{Code: code, ID: id, Method: &abs.Method{Type: abs.MAkaPrime, AKA: a}}, &ref.Opts{AKAOrder: true})
+		if err != nil {
+			return
+		}
+		le = new(eap.EAP)
+		if err := le.Unmarshal(wire); err != nil {
+			k.Violate("decode-error", "eap-decode-error: "+classifyErr(err), errStr(err), M{"wire": core.Hex(wire)})
+			return
+		}
+		ap = le.EapTypeData.(*eap.EapAkaPrime)
+		for _, at := range a.Attrs {
+			final[at.Type] = at.Value
+			steps = append(steps, fmt.Sprintf("recv(%d,%d)", at.Type, len(at.Value)))
+		}
+	} else {
+		ap = eap.NewEapAkaPrime(eap.EapAkaSubtype(subtype))
+		le = &eap.EAP{Code: eap.EapCode(code), Identifier: id, EapTypeData: ap}
+	}
+	n := 2 + k.R.Intn(8)
+	types := []uint8{abs.ATRand, abs.ATAutn, abs.ATRes, abs.ATMac, abs.ATKdfInput, abs.ATKdf, abs.ATCheckcode, abs.ATRes, abs.ATKdfInput, abs.ATKdfInput}
+	for i := 0; i < n; i++ {
+		t := types[k.R.Intn(len(types))]
+		var v abs.HB
+		switch t {
+		case abs.ATRand, abs.ATAutn, abs.ATMac:
+			v = gen.DataN(k.R, 16)
+		case abs.ATRes:
+			v = k.R.Bytes(k.R.Range(4, 16)) // non-zero octets: stale padding would show
+		case abs.ATKdfInput:
+			v = k.R.Bytes(k.R.Pick(0, 1, 2, 3, 5, 6, 7, 9, 13, 30, 31, 33, k.R.Range(0, 300)))
+		case abs.ATKdf:
+			v = k.R.Bytes(2)
+		default:
+			v = k.R.Bytes(k.R.Pick(0, 20, 32))
+		}
+		for j := range v {
+			if v[j] == 0 {
+				v[j] = 0xee
+			}
+		}
+		if v == nil {
+			v = abs.HB{}
+		}
+		var err error
+		pn := core.Try(func() { err = ap.SetAttr(eap.EapAkaPrimeAttrType(t), v) })
+		steps = append(steps, fmt.Sprintf("set(%d,%d)", t, len(v)))
+		if pn != nil || err != nil {
+			k.Violate("setter", "setattr-refused-legal-value", fmt.Sprint(err, pn), M{"steps": steps})
+			return
+		}
+		final[t] = v
+	}
+	want := &abs.EAP{Code: code, ID: id, Method: &abs.Method{Type: abs.MAkaPrime, AKA: &abs.AKA{Subtype: subtype}}}
+	for t, v := range final {
+		want.Method.AKA.Attrs = append(want.Method.AKA.Attrs, abs.AKAAttr{Type: t, Value: v})
+	}
+	w := M{"steps": steps, "decoded_first": decoded, "expected": want.Canon()}
+	if got := bridge.ObserveEAP(le); !abs.EqualEAP(want, got) {
+		k.Violate("mismatch", "getattr-after-set-differs/history", got.JSON()+" != "+want.JSON(), w)
+		return
+	}
+	var wire []byte
+	var err error
+	pn := core.Try(func() { wire, err = le.Marshal() })
+	if pn != nil || err != nil {
+		k.Violate("encode-error", "eap-encode-error/history", fmt.Sprint(err, pn), w)
+		return
+	}
+	w["wire"] = core.HexClip(wire, 2048)
+	for i := 0; i < 40; i++ {
+		wn, errn := le.Marshal()
+		if errn != nil || !bytes.Equal(wire, wn) {
+			k.Violate("nondeterministic", "marshal-repeated-differs/history", fmt.Sprintf("Marshal #%d of the unmodified packet differs from the first", i+2), w)
+			return
+		}
+	}
+	pe, perr := ref.ParseEAP(wire, true)
+	if perr != nil {
+		k.Violate("malformed", "eap-strict-parse/history: "+classifyErr(perr), "independent strict parser rejects the packet: "+perr.Error(), w)
+		return
+	}
+	if !abs.EqualEAP(want, pe) {
+		k.Violate("mismatch", "eap-forward-mismatch/history", pe.JSON()+" != "+want.JSON(), w)
+		return
+	}
+	d, derr, dp := libEAPUnmarshal(wire)
+	if dp != nil || derr != nil || !abs.EqualEAP(want, d) {
+		k.Violate("mismatch", "eap-roundtrip-mismatch/history", fmt.Sprint(derr, dp), w)
+		return
+	}
+	if decoded {
+		k.Count("aka_histories_decoded", 1)
+	} else {
+		k.Count("aka_histories_fresh", 1)
+	}
+	k.Distinct(fmt.Sprintf("hist|%v|%d|%s", decoded, len(steps), want.Shape()))
+}
+
 func c14(c *core.Ctx) {
 	c.Info("rule", "case = EAP packet (any code 0..255, identifier, method: none / Identity / Notification / Nak >= 1 octet / Expanded any vendor data incl. EAP-5G / EAP-AKA' with any subset of the 7 settable attributes, RES 4..16, KDF_INPUT 0..300, CHECKCODE 0/20/32): "+
 		"build through the API, GetAttr on the built object, Marshal x2 (x50 on a sample), independent strict RFC 3748/4187/5448 parse (length, zero padding, bit lengths, words), Unmarshal, compare; setter size rules for ALL sizes 0..300 of RAND/AUTN/MAC/KDF/RES; "+
@@ -173,6 +289,10 @@ func c14(c *core.Ctx) {
 		a := &abs.AKA{Subtype: 1, Attrs: []abs.AKAAttr{{Type: abs.ATRes, Value: gen.DataN(k.R, 4+k.Index%13)}}}
 		c14One(k, &abs.EAP{Code: 2, ID: k.R.Byte(), Method: &abs.Method{Type: abs.MAkaPrime, AKA: a}}, "res-size")
 	})
+	// histories on one EAP-AKA' object: attributes set, then set again with other sizes (also after a decode)
+	c.Family("aka-overwrite", c.N(6000, 600000), func(k *core.Case) { c14History(k, false) })
+	c.Family("aka-amend-decoded", c.N(6000, 600000), func(k *core.Case) { c14History(k, true) })
+	c.Require("aka_histories_fresh", "aka_histories_decoded")
 	c.Family("methods", c.N(20000, 3000000), func(k *core.Case) {
 		e := gen.EAP(k.R)
 		c14One(k, e, "methods")
@@ -364,6 +484,29 @@ func c15Reference(k *core.Case) {
 	key := pickKaut(k.R, k.Index/3)
 	a := akaWithMac(k.R, k.R.Intn(128))
 	permute(k.R, a.Attrs, k.Index)
+	extra := 0
+	if k.Index%4 == 1 {
+		// attributes of other types, as an independent sender may include (AT_PADDING, AT_IV, AT_ENCR_DATA, AT_NEXT_PSEUDONYM, ...):
+		// distinct types, bodies up to the 8-bit word count, so that packets of several kilobytes occur
+		used := map[uint8]bool{}
+		for _, t := range []uint8{6, 129, 130, 132, 133, 135, 4, 12, 14, 22, 200, 255, 7, 10, 13} {
+			if !k.R.Chance(2, 3) || used[t] {
+				continue
+			}
+			used[t] = true
+			n := 4 * k.R.Pick(0, 1, 2, 5, 60, 200, 254, 254)
+			pos := k.R.Intn(len(a.Attrs) + 1)
+			a.Attrs = append(a.Attrs[:pos], append([]abs.AKAAttr{{Type: t, Value: k.R.Bytes(n)}}, a.Attrs[pos:]...)...)
+			extra++
+		}
+		if len(a.Attrs) > 0 && k.R.Bool() { // a long network name
+			for i := range a.Attrs {
+				if a.Attrs[i].Type == abs.ATKdfInput {
+					a.Attrs[i].Value = k.R.Bytes(k.R.Range(300, 1016))
+				}
+			}
+		}
+	}
 	e := &abs.EAP{Code: uint8(k.R.Pick(1, 2)), ID: k.R.Byte(), Method: &abs.Method{Type: abs.MAkaPrime, AKA: a}}
 	o := &ref.Opts{AKAOrder: true}
 	noise := k.Index%3 == 0
@@ -383,7 +526,7 @@ func c15Reference(k *core.Case) {
 	for _, at := range a.Attrs {
 		order = append(order, int(at.Type))
 	}
-	w := M{"eap": e.Canon(), "k_aut": core.Hex(key), "wire": core.Hex(wire), "attribute_order": order, "nonzero_reserved_and_padding": noise}
+	w := M{"eap": e.Canon(), "k_aut": core.Hex(key), "wire": core.HexClip(wire, 3000), "wire_len": len(wire), "attribute_order": order, "nonzero_reserved_and_padding": noise, "other_attribute_types": extra}
 	k.Eval(1)
 	ok, why, pn := accept(wire, key)
 	if pn != nil {
@@ -404,7 +547,20 @@ func c15Reference(k *core.Case) {
 		return
 	}
 	k.Count("reference_packets_accepted", 1)
-	k.Distinct(fmt.Sprintf("ref|%v|%v", order, noise))
+	if len(wire) > 4096 {
+		k.Count("reference_packets_over_4k", 1)
+	}
+	// the received values themselves must be intact too
+	for i := range a.Attrs {
+		if a.Attrs[i].Type == abs.ATMac {
+			a.Attrs[i].Value = append(abs.HB{}, wire[off:off+16]...) // the packet carries the computed MAC
+		}
+	}
+	if d, derr, _ := libEAPUnmarshal(wire); derr != nil || !abs.EqualEAP(e, d) {
+		k.Violate("mismatch", "reference-packet-decodes-differently", fmt.Sprint(derr), w)
+		return
+	}
+	k.Distinct(fmt.Sprintf("ref|%v|%v|%s", order, noise, sizeBucket(len(wire))))
 	if k.WantSample() && k.Index%2 == 1 {
 		k.Sample(w)
 	}
@@ -515,6 +671,6 @@ func c15(c *core.Ctx) {
 	c.Family("sender", c.N(60000, 2000000), c15Sender)
 	c.Family("reference-orders", c.N(40000, 1000000), c15Reference)
 	c.Family("bit-flips", c.N(200, 5000), c15Flips)
-	c.Require("sender_receiver_agree", "reference_packets_accepted", "exhaustive_flip_packets", "flip_region_attr-padding", "flip_region_attr-reserved-or-bitlen",
+	c.Require("sender_receiver_agree", "reference_packets_accepted", "reference_packets_over_4k", "exhaustive_flip_packets", "flip_region_attr-padding", "flip_region_attr-reserved-or-bitlen",
 		"flip_region_mac-value", "flip_region_eap-header", "flip_region_aka-header", "flip_region_attr-type", "flip_region_attr-length", "flip_region_attr-value")
 }
